@@ -21,8 +21,8 @@ Open Scope R_scope.
 
 (* a concrete area used by the non-vacuity examples: extent (0, 0, 8, 4), 8 x 4 cells of size 1 *)
 Definition ex_a : area R := mk_area 0 0 8 4 8%Z 4%Z.
-Example C18_ex_wf : wf_area ex_a /\ fits_int32 ex_a /\ north_up ex_a /\ valid_cell ex_a 1 0.
-Proof. unfold wf_area, fits_int32, north_up, valid_cell; cbn. repeat split; try lia; lra. Qed.
+Example C18_ex_wf : wf_area ex_a /\ fits_int32 ex_a /\ valid_cell ex_a 1 0.
+Proof. unfold wf_area, fits_int32, valid_cell; cbn. repeat split; try lia; lra. Qed.
 Example C18_ex_interior : in_cell_open ex_a 1 0 (/ 2) (5 / 2).
 Proof. unfold in_cell_open, sbetween, cell_x, cell_y, dxR, dyR; cbn. split; [left | right]; lra. Qed.
 Example C18_ex_outside : ~ in_extent ex_a (- / 2) (5 / 2) /\ ~ in_extent_widened ex_a (eps_mi RO) (- / 2) (5 / 2).
@@ -51,7 +51,7 @@ Proof. exact grid_outside. Qed.
 Print Assumptions C18_grid_outside_is_none.
 Example C18_grid_ex : grid_cell RO ex_a (/ 2) (5 / 2) = Some (1%Z, 0%Z) /\ grid_cell RO ex_a (- / 2) (5 / 2) = None.
 Proof.
-  destruct C18_ex_wf as (W & F & _ & V). split.
+  destruct C18_ex_wf as (W & F & V). split.
   - apply grid_complete; auto. exact C18_ex_interior.
   - apply grid_outside; auto. exact (proj1 C18_ex_outside).
 Qed.
@@ -123,7 +123,7 @@ Proof. exact area_outside. Qed.
 Print Assumptions C18_area_outside_eps_is_none.
 Example C18_area_ex : area_cell RO ex_a (/ 2) (5 / 2) = Some (1%Z, 0%Z) /\ area_cell RO ex_a (- / 2) (5 / 2) = None.
 Proof.
-  destruct C18_ex_wf as (W & F & _ & V). split.
+  destruct C18_ex_wf as (W & F & V). split.
   - apply area_complete; auto. exact C18_ex_interior.
   - apply area_outside; auto. exact (proj2 C18_ex_outside).
 Qed.
@@ -135,30 +135,35 @@ Example C18_area_band_f64 :
 Proof. vm_compute. repeat split. Qed.
 
 (* ------------------------------------------------------------------ EWA ll2cr (ewa.py + _ll2cr.pyx:ll2cr_static),
-   north-up areas only (ymin < ymax): on flipped areas ch = -abs(pixel_size_y) breaks the rows, which is C08's finding.
-   x >= 1e30 is PROJ's failure marker and is turned into the fill value. *)
-Theorem C18_ll2cr_is_area_map : forall a fill x y, wf_area a -> north_up a -> x < big_1e30 RO ->
+   any orientation of the area: ewa.py passes ch = -pixel_size_y, the area's own signed row scale (C08 fix; the former
+   ch = -abs(pixel_size_y) broke the rows of flipped areas).  x >= 1e30 is PROJ's failure marker -> fill value. *)
+Theorem C18_ll2cr_is_area_map : forall a fill x y, wf_area a -> x < big_1e30 RO ->
   ll2cr_point RO a fill x y =
   (arr_of_proj_x RO a x, arr_of_proj_y RO a y, ll_in_grid RO a (arr_of_proj_x RO a x) (arr_of_proj_y RO a y)).
 Proof. exact ll2cr_point_R. Qed.
 Print Assumptions C18_ll2cr_is_area_map.
-Theorem C18_ll2cr_interior_rounds_to_cell : forall a fill x y r c, wf_area a -> north_up a -> x < big_1e30 RO ->
+Theorem C18_ll2cr_interior_rounds_to_cell : forall a fill x y r c, wf_area a -> x < big_1e30 RO ->
   valid_cell a r c -> in_cell_open a r c x y ->
   exists cf rf, ll2cr_point RO a fill x y = (cf, rf, true) /\ ZnearestE cf = c /\ ZnearestE rf = r
                 /\ Rabs (cf - IZR c) < / 2 /\ Rabs (rf - IZR r) < / 2.
 Proof. exact ll_cell. Qed.
 Print Assumptions C18_ll2cr_interior_rounds_to_cell.
-Theorem C18_ll2cr_outside_is_no_cell : forall a fill x y, wf_area a -> north_up a -> x < big_1e30 RO -> ~ in_extent a x y ->
+Theorem C18_ll2cr_outside_is_no_cell : forall a fill x y, wf_area a -> x < big_1e30 RO -> ~ in_extent a x y ->
   exists cf rf b, ll2cr_point RO a fill x y = (cf, rf, b) /\
     (cf < - / 2 \/ IZR (width a) - / 2 < cf \/ rf < - / 2 \/ IZR (height a) - / 2 < rf).
 Proof. exact ll_outside. Qed.
 Print Assumptions C18_ll2cr_outside_is_no_cell.
-Theorem C18_ll2cr_counts_points_in_extent : forall a fill x y, wf_area a -> north_up a -> x < big_1e30 RO ->
+Theorem C18_ll2cr_counts_points_in_extent : forall a fill x y, wf_area a -> x < big_1e30 RO ->
   in_extent a x y -> snd (ll2cr_point RO a fill x y) = true.
 Proof. exact ll_counted. Qed.
 Print Assumptions C18_ll2cr_counts_points_in_extent.
 Example C18_ll2cr_ex : / 2 < big_1e30 RO /\ ll2cr_point F64 unit_area PrimFloat.nan 0.5%float 2.5%float = (0%float, 1%float, true).
 Proof. split; [rewrite big_R; lra | vm_compute; reflexivity]. Qed.
+(* a flipped area (ymin = 4 > ymax = 0, rows counted from y = 0 upwards): y = 2.5 is in row 2, as for the area itself *)
+Example C18_ll2cr_flipped_ex : wf_area (mk_area 0 4 8 0 8%Z 4%Z) /\
+  ll2cr_point F64 (mk_area 0%float 4%float 8%float 0%float 8 4) PrimFloat.nan 0.5%float 2.5%float = (0%float, 2%float, true) /\
+  area_cell F64 (mk_area 0%float 4%float 8%float 0%float 8 4) 0.5%float 2.5%float = Some (2%Z, 0%Z).
+Proof. split; [unfold wf_area; cbn; repeat split; try lia; lra | vm_compute; split; reflexivity]. Qed.
 
 (* ------------------------------------------------------------------ all modules agree
    Off the border lines, grid, GridFilter and bucket return the same answer everywhere; so does the area's index lookup
@@ -171,7 +176,7 @@ Print Assumptions C18_all_modules_agree.
 Example C18_agree_ex : grid_cell RO ex_a (/ 2) (5 / 2) = gf_cell RO ex_a (/ 2) (5 / 2) /\
   area_cell RO ex_a (/ 2) (5 / 2) = bk_cell RO ex_a (/ 2) (5 / 2) /\ bk_cell RO ex_a (/ 2) (5 / 2) = Some (1%Z, 0%Z).
 Proof.
-  destruct C18_ex_wf as (W & F & _ & V).
+  destruct C18_ex_wf as (W & F & V).
   destruct (all_agree ex_a (/ 2) (5 / 2) W F C18_ex_off_border) as (A & B & C).
   split; [exact A |]. split.
   - apply C. left. unfold in_extent, between. cbn. lra.
